@@ -17,6 +17,7 @@
                   NF = lin2db(10^(nf1/10) + 10^((nf2 - g1)/10)) (Friis), per-channel NF = average + interpolated ripple.
  R7 gain profile: the last refinement step of _gain_profile is the secant step x + (G - g(x))/slope on both sides; the
                   flat-amplifier shortcut returns the effective gain.
+ Rm memo          : every memoisation construct in the functions behind this property is keyed by everything it reads.
 """
 import ast
 from fractions import Fraction
@@ -536,5 +537,10 @@ def r8_dual_stage(ctx):
     ctx.need('R8.dual-stage', 7)
 
 
+
+from ..memo import rule_for as _memo_rule
+
+RULES_MEMO = ('Rm.memo', _memo_rule('C04', 'the gain, NF or ASE of another operating point would be applied'))
+
 RULES = [('R8.dual-stage', r8_dual_stage), ('R1.ase', r1_ase), ('R2.order', r2_order), ('R3.clamp', r3_clamp), ('R4.nf', r4_nf), ('R5.exhaustive', r5_exhaustive),
-         ('R6.band', r6_band), ('R7.gain-profile', r7_gain_profile)]
+         ('R6.band', r6_band), ('R7.gain-profile', r7_gain_profile), RULES_MEMO]
